@@ -22,10 +22,11 @@ Theorem C12_flag_bits_agree :
   b_f32 prims_vm = b_f32 prims_jit /\ b_f64 prims_vm = b_f64 prims_jit /\
   b_map_write_key prims_vm = b_map_write_key prims_jit /\
   b_empty_arr prims_vm = b_empty_arr prims_jit /\ b_empty_obj prims_vm = b_empty_obj prims_jit /\
-  b_recurse prims_vm = b_recurse prims_jit /\
+  b_recurse prims_vm = b_recurse prims_jit /\ b_eface prims_vm = b_eface prims_jit /\ b_iface prims_vm = b_iface prims_jit /\
   b_f32 prims_vm = BitEncodeNullForInfOrNan /\ b_f64 prims_vm = BitEncodeNullForInfOrNan /\
   b_map_write_key prims_vm = BitSortMapKeys /\ b_empty_arr prims_vm = BitNoNullSliceOrMap /\
-  b_empty_obj prims_vm = BitNoNullSliceOrMap /\ b_recurse prims_vm = BitPointerValue.
+  b_empty_obj prims_vm = BitNoNullSliceOrMap /\ b_recurse prims_vm = BitPointerValue /\
+  b_eface prims_vm = BitPointerValue /\ b_iface prims_vm = BitPointerValue.
 Proof. exact flag_bits_agree. Qed.
 Print Assumptions C12_flag_bits_agree.
 
